@@ -205,8 +205,12 @@ func lockLoop(try func() bool, lock func()) {
 	if t == nil {
 		// a goroutine that is not a task (spawned by the code under test): spin on fake
 		// time, which is durably blocking, so quiescence is still reached
+		d := time.Microsecond
 		for !try() {
-			time.Sleep(time.Microsecond)
+			time.Sleep(d)
+			if d < 50*time.Millisecond {
+				d *= 2 // the holder may be stuck for simulated minutes (hang detection)
+			}
 		}
 		return
 	}
